@@ -10,6 +10,7 @@ def run_reg(chk, A, table_auth):
                 s = regsim.RScn("none" if f % 5 else "packed-self", "ES256-P256" if f % 3 else "EdDSA")
                 s.flags, s.require_uv, s.require_up = f, ruv, rup
                 pd, reg = regsim.build(s)
+                reg.attachment = (None, "platform", "cross-platform")[(f // 2 + ruv + 2 * rup) % 3]      # a client hint: no influence on any reported field
                 up, uv, be, bs, at = f & 1, f & 4, f & 8, f & 16, f & 64
                 exp = (bool(up) or not rup) and (bool(uv) or not ruv) and bool(at) and not (bs and not be)
                 il, ml = B.run_case(regrun.policy_of(pd), reg, "record" if f % 2 else "dict", "accept" if exp else "reject", f"create flags={f:#04x} uv_required={ruv} up_required={rup}", scn=s)
